@@ -927,9 +927,10 @@ def engine_suite(tier, seed):
     if not r['ok']:
         res['errors'].append('TLC %s: %s' % (r['name'], r['violated'] or r['error']))
     target = os.path.join(BUILD, 'suite_target')
-    runs = [('default', None), ('two test threads', '2')] if tier == 'quick' else \
-           [('default', None), ('one test thread', '1'), ('two test threads', '2'), ('four', '4'), ('sixteen', '16'), ('two again', '2')]
-    for n, (label, threads) in enumerate(runs):
+    runs = [('functional', 'default', None), ('functional', 'two test threads', '2'), ('signals', 'signals', None)] if tier == 'quick' else \
+           [('functional', 'default', None), ('functional', 'one test thread', '1'), ('functional', 'two test threads', '2'), ('functional', 'four', '4'),
+            ('functional', 'sixteen', '16'), ('functional', 'two again', '2'), ('signals', 'signals', None)]
+    for n, (suite, label, threads) in enumerate(runs):
         tdir = os.path.join(BUILD, 'suite_trace', 'run_%d' % n)
         shutil.rmtree(tdir, ignore_errors=True)
         os.makedirs(tdir)
@@ -938,12 +939,12 @@ def engine_suite(tier, seed):
         # short limit: the suite takes about a second, and whatever it leaves behind (its process tests
         # spawn `sleep` children) is removed with the group.
         with open(os.path.join(tdir, 'build.log'), 'w') as log:
-            b = subprocess.run(['timeout', '1500', 'cargo', 'test', '--offline', '--test', 'functional', '--no-run'], cwd=REPO, env=env,
+            b = subprocess.run(['timeout', '1500', 'cargo', 'test', '--offline', '--test', suite, '--no-run'], cwd=REPO, env=env,
                                stdin=subprocess.DEVNULL, stdout=log, stderr=subprocess.STDOUT)
         if b.returncode != 0:
             res['errors'].append('building the test suite with the hooks failed: %s' % open(os.path.join(tdir, 'build.log'), errors='replace').read()[-300:])
             break
-        cmd = ['cargo', 'test', '--offline', '--test', 'functional']
+        cmd = ['cargo', 'test', '--offline', '--test', suite]
         if threads:
             cmd += ['--', '--test-threads', threads]
         with open(os.path.join(tdir, 'cargo.log'), 'w') as log:
@@ -975,8 +976,8 @@ def engine_suite(tier, seed):
         tv = run_trace_validation('trace_oplife_%d' % n, 'MC_Trace_OpLife', OPLIFE_CFG, nd, timeout=1200)
         tv['traces'] = len(traces)
         tv['events'] = stats['events_out']
-        tv['purpose'] = 'real kernel: functional test suite (%s), %d operations, %d events; suite exit status %d' % (
-            label, stats['operations'], stats['events_out'], p.returncode)
+        tv['purpose'] = 'real kernel: %s tests (%s), %d operations, %d events; suite exit status %d' % (
+            suite, label, stats['operations'], stats['events_out'], p.returncode)
         res['tlc'].append(tv)
         res['replays'].append({'model': 'OpLife/recorded from the functional test suite on the real kernel', 'variant': label,
                                'paths': stats['operations'], 'steps': stats['events_out'], 'diverged_paths': 0 if tv['accepted'] else 1,
@@ -1209,7 +1210,7 @@ def engine_park(tier, seed):
             dict(futures=3, sqn=1, polls=3, pre=1, maxexec=800)]
     if tier == 'thorough':
         runs = [dict(futures=2, sqn=1, polls=3, pre=3, maxexec=400000), dict(futures=2, sqn=2, polls=2, pre=3, maxexec=200000),
-                dict(futures=3, sqn=1, polls=3, pre=1, maxexec=10000), dict(futures=3, sqn=2, polls=2, pre=1, maxexec=10000)]
+                dict(futures=3, sqn=1, polls=3, pre=1, maxexec=3000), dict(futures=3, sqn=2, polls=2, pre=1, maxexec=3000)]
     for i, rn in enumerate(runs):
         outdir = os.path.join(BUILD, 'replay', 'park_%d' % i)
         args = ['--futures', str(rn['futures']), '--sqn', str(rn['sqn']), '--polls', str(rn['polls']), '--preemptions', str(rn['pre']),
